@@ -5,9 +5,9 @@
 * a minimal terminal-stream tokenizer (harness/term.py of the C10 builder did not exist when this was
   written): strips / decodes CSI, OSC 8 and C0 control codes.  It is independent of the Lean model.
 * an HTML reader built on the standard library's html.parser.
-* canonicalisation of escape codes (link ids are random; colour parameters are canonicalised because
-  `Style._ansi` is cached without the colour system - pre-finding F7, property C03 - so the exact colour
-  code in a stream depends on which console rendered a shared Style object first).
+* canonicalisation of escape codes: link ids are random and are stripped; everything else, colour parameters
+  included, is compared exactly (the `Style._ansi` cache is keyed by colour system since fix c9ec5a8).
+* Tracer: logs which public console methods rich itself calls (Live.start/refresh/stop) without changing them.
 """
 import html.parser
 import io
@@ -44,6 +44,41 @@ class SpyList(list):
         return out
 
 
+class Tracer:
+    """Instance-level wrappers around the console's public entry points and `_enter_buffer` / `_exit_buffer`:
+    each *outermost* call is logged as one primitive event (name, args, kwargs, segments appended meanwhile);
+    calls made from inside a logged call (print -> `with self:`, show_cursor -> control …) are not logged.
+    The wrapped methods run unchanged."""
+
+    NAMES = ("print", "log", "rule", "out", "line", "control", "bell", "clear", "show_cursor", "_enter_buffer", "_exit_buffer")
+
+    def __init__(self, console, spy):
+        self.events = []
+        self.depth = 0
+        self.spy = spy
+        for name in self.NAMES:
+            setattr(console, name, self._wrap(name, getattr(console, name)))
+
+    def _wrap(self, name, orig):
+        def wrapper(*a, **kw):
+            if self.depth:
+                return orig(*a, **kw)
+            self.depth += 1
+            n0 = len(self.spy.log)
+            try:
+                return orig(*a, **kw)
+            finally:
+                self.depth -= 1
+                self.events.append((name, a, kw, list(self.spy.log[n0:])))
+
+        wrapper.__name__ = name
+        return wrapper
+
+    def take(self):
+        out, self.events = self.events, []
+        return out
+
+
 class LogFile(io.StringIO):
     def __init__(self):
         super().__init__()
@@ -60,6 +95,14 @@ _OSC8_ID = re.compile(r"\x1b\]8;id=[^;\x1b]*;")
 
 
 def _canon_params(params):
+    """SGR parameters as they are.  (Until fix c9ec5a8 `Style._ansi` was cached without the colour system - F7 of C03 -
+    and colour parameters had to be canonicalised away; they are compared exactly now.)"""
+    return params
+
+
+def loose_params(params):
+    """SGR parameters with every colour replaced by F (foreground) / B (background): for comparing streams that were
+    rendered for different colour systems (the file vs. the TRUECOLOR styled export)."""
     ps = params.split(";") if params else []
     out = []
     i = 0
@@ -87,9 +130,8 @@ def _canon_params(params):
 
 
 def canon(s):
-    """Strip link ids; replace every colour parameter of an SGR sequence by F (foreground) / B (background)."""
-    s = _OSC8_ID.sub("\x1b]8;id=;", s)
-    return _SGR.sub(lambda m: "\x1b[" + _canon_params(m.group(1)) + "m", s)
+    """Strip link ids (they are random per Style object)."""
+    return _OSC8_ID.sub("\x1b]8;id=;", s)
 
 
 # ------------------------------------------------------------------ terminal stream tokenizer
